@@ -14,7 +14,7 @@ func init() {
 	register(&Property{
 		ID:        "C13",
 		Technique: "static analysis: argument provenance of the cursor into the range bounds per direction, constant propagation of the open-range type, guard implication on the table-boundary truncation, enumeration of prefix comparisons on table names, page-completeness shape of the scan loop",
-		Explanation: "Decides narrow construction clauses of the cursor scans, not their behaviour: (Q1) no element is returned twice at a page boundary: the cursor becomes the lower bound when scanning forward and the upper bound in reverse, the far end is the type/table/collection end built from an empty trailing segment, and the iterator is opened with both ends open (the wrapper's open-bit handling is decided in C20-T3); (Q2) nothing from another table is returned: the node-level scan commands cut the page at the first key whose table (ExtractTable) is not byte-equal to the cursor's table, and no table membership test on this path is a prefix comparison; (Q3) a page is short only when the range is exhausted: the scan loop stops on the element count or on the end of the iterator only (a short page is what the node reads as 'finished'), and a forward MATCH scan starts from the cursor, not from a pattern-derived position.",
+		Explanation: "Decides narrow construction clauses of the cursor scans, not their behaviour: (Q1) no element is returned twice at a page boundary: the cursor becomes the lower bound when scanning forward and the upper bound in reverse, the far end is the type/table/collection end built from an empty trailing segment, and the iterator is opened with both ends open (the wrapper's open-bit handling is decided in C20-T3); (Q2) nothing from another table is returned: the node-level scan commands cut the page at the first key whose table (ExtractTable) is not byte-equal to the cursor's table, and no table membership test on this path is a prefix comparison; (Q3) a page is short only when the range is exhausted: the scan loop stops on the element count or on the end of the iterator only (a short page is what the node reads as 'finished'), and a forward MATCH scan starts from the cursor, not from a pattern-derived position. (Q4) the merge scan never overwrites the command name of a per-partition command, (Q5) the count a page is measured against is cut at the store's page limit, (Q6) the store scans from the client's cursor unmodified and the far end of a forward range is the successor of the prefix.",
 		NotDecided: "the bulk of C13: completeness, order, termination, MATCH semantics, behaviour under concurrent writes — these need the iterator's behaviour, not its construction.",
 		Assumptions: []string{"path conditions as in C01"},
 		Run: runC13,
